@@ -326,6 +326,7 @@ func legText(n int) []rune {
 var legTimes = [][7]int{
 	{1900, 1, 1, 0, 0, 0, 0}, {1899, 12, 31, 12, 0, 0, 0}, {2000, 2, 29, 23, 59, 59, 996000000}, {1753, 1, 1, 0, 0, 0, 3000000},
 	{1, 1, 1, 0, 0, 0, 0}, {9999, 12, 31, 23, 59, 59, 999999999}, {1969, 12, 31, 12, 34, 56, 789000000}, {2079, 6, 6, 23, 59, 0, 0},
+	{2079, 6, 6, 23, 59, 59, 999000000}, {2024, 5, 17, 12, 0, 59, 999000000}, {2000, 2, 28, 23, 59, 59, 998334000},
 }
 
 func legTime(small bool) val {
